@@ -41,6 +41,7 @@ def run(ctx: Ctx) -> None:
     orbits.rule_iso_finder_bounds(ctx)
     orbits.rule_distinct_sources(ctx)
     orbits.rule_iso_bounded(ctx)
+    orbits.rule_iso_input_first(ctx)
     orbits.rule_labelled_equality(ctx)
     shapes.rule_relabel_form(ctx)
     tables.rule_api_numpy(ctx, [RELABEL], advisory_rels=(["graphiq/noise/time_depend_noise.py", "graphiq/io.py",
